@@ -81,7 +81,11 @@ func flat(p any, out *[]int) bool {
 	case "nil":
 		*out = append(*out, 4)
 	case "float":
-		f, err := strconv.ParseFloat(m["text"].(string), 64)
+		var sb strings.Builder
+		for _, c := range m["v"].([]any) {
+			sb.WriteRune(rune(c.(int)))
+		}
+		f, err := strconv.ParseFloat(sb.String(), 64)
 		if err != nil || f*2 != float64(int(f*2)) || f > 1e8 || f < -1e8 {
 			return false
 		}
